@@ -116,14 +116,17 @@ class T(object):
                 raise ValueError('operands could not be broadcast together with shapes %s %s' % (a, b))
         return tuple(out)
 
-    def at(s, idx, outshape):
+    def bmask(s, outshape):
+        """which axes of s are stretched by broadcasting to outshape (decided now, on the current path)"""
         off = len(outshape) - len(s._shape)
-        ii = []
-        for k, d in enumerate(s._shape):
-            if d == 1 or (outshape[off + k] != d and is_one(d)):
-                ii.append(Integer(0))
-            else:
-                ii.append(idx[off + k])
+        return tuple((d == 1 and outshape[off + k] != 1) or (d != 1 and outshape[off + k] != d and is_one(d))
+                     for k, d in enumerate(s._shape))
+
+    def at(s, idx, outshape, mask=None):
+        off = len(outshape) - len(s._shape)
+        if mask is None:
+            mask = s.bmask(outshape)
+        ii = [Integer(0) if mask[k] else idx[off + k] for k in range(len(s._shape))]
         return s.fn(tuple(ii))
 
     def _bin(s, o, op, rev=False, boolean=False):
@@ -131,9 +134,10 @@ class T(object):
             o = T.lift(o)
         if isinstance(o, T):
             sh = T.bshape(s._shape, o._shape)
+            ms, mo = s.bmask(sh), o.bmask(sh)
             if rev:
-                return T(sh, lambda idx: op(o.at(idx, sh), s.at(idx, sh)), boolean)
-            return T(sh, lambda idx: op(s.at(idx, sh), o.at(idx, sh)), boolean)
+                return T(sh, lambda idx: op(o.at(idx, sh, mo), s.at(idx, sh, ms)), boolean)
+            return T(sh, lambda idx: op(s.at(idx, sh, ms), o.at(idx, sh, mo)), boolean)
         v = w(o)
         if rev:
             return T(s._shape, lambda idx: op(v, s.fn(idx)), boolean)
@@ -350,6 +354,8 @@ def _need(cond, what):
         return
     c.notes.append(('need', what, cond))
     if not decide(cond):
+        if what == 'index in bounds':
+            raise IndexError('index out of bounds on path where not (%s)' % (cond,))
         raise Unsupported('shape obligation not met: %s: %s' % (what, cond))
 
 
@@ -379,7 +385,7 @@ class MT(T):
                     sub.append(idx[ax] - lo)
             if isinstance(val, T):
                 vshape = tuple(simp_int(p[2] - p[1]) for p in plan if p[0] == 'out')
-                v = val.at(tuple(sub), vshape)
+                v = val.at(tuple(sub), vshape, getattr(val, '_wmask', None))
             else:
                 v = w(val)
             cond = sp.And(*conds) if conds else sp.true
@@ -412,6 +418,8 @@ class MT(T):
         if isinstance(val, T):
             vshape = tuple(simp_int(p[2] - p[1]) for p in plan if p[0] == 'out')
             T.bshape(vshape, val._shape)    # raises ValueError when not broadcastable
+            val = T(val._shape, val.fn, val.boolean)
+            val._wmask = val.bmask(vshape)
         s.writes.append((plan, val))
 
     def copy(s):
@@ -443,6 +451,11 @@ def _ew(x, f, fnum):
         x = _np.asarray(x, dtype=object)
     if isinstance(x, _np.ndarray) and x.dtype == object:
         return _np.frompyfunc(lambda v: mk(f(w(v))), 1, 1)(x)
+    if sym.CTX is not None and isinstance(x, (int, float)) and not isinstance(x, bool) and x == x and abs(x) != float('inf'):
+        # exact constants while tracing: np.sqrt(2) stays sqrt(2), not 1.4142135623730951
+        r = f(w(x))
+        if not (r.is_Rational):
+            return mk(r)
     return fnum(x)
 
 
@@ -710,7 +723,8 @@ class _NPX(object):
         x = T.lift(x)
         shape = tuple(simp_int(w(d)) for d in _shape_arg(shape))
         sh = T.bshape(x._shape, shape)
-        return T(shape, lambda idx: x.at(idx, shape), x.boolean)
+        mk_ = x.bmask(shape)
+        return T(shape, lambda idx: x.at(idx, shape, mk_), x.boolean)
 
     def concatenate(self, parts, axis=0, **kw):
         parts = list(parts)
